@@ -4,6 +4,7 @@ from fv.symx import And, Or, Not, Eq, Implies, Iff
 from fv import geo
 from frame.die.die import Die
 from frame.netlist.netlist import Netlist
+from frame.geometry.geometry import Point
 from frame.allocation.allocation import create_initial_allocation
 
 PID = 'C03'
@@ -11,7 +12,7 @@ FUNCTIONS = ['create_initial_allocation', 'Allocation.initial_allocation', 'Allo
              'Netlist.create_squares', 'Module.create_square', 'Rectangle.area_overlap', 'Die.floorplanning_rectangles',
              'Die.__init__', 'Die.split_refinable_regions', 'Netlist.__init__']
 H = 4.0
-BOUNDS = {'quick': 'concrete die 12x4 (and, with concrete modules, a die with symbolic breakpoints) and <=1 blockage / specialised / fixed region on symbolic breakpoints (and the '
+BOUNDS = {'quick': 'allocate - move the modules in place (symbolic displacement of one module) - allocate again on 4 dies x 3 module combinations; concrete die 12x4 (and, with concrete modules, a die with symbolic breakpoints) and <=1 blockage / specialised / fixed region on symbolic breakpoints (and the '
                    'die refined to >=2 cells); <=2 movable modules (one of them symbolic at a time, the other at a concrete place): soft without rectangles (area in {1, 2.25, 4}, symbolic centre x), soft '
                    'with 1-2 rectangles, hard; rectangle x-positions and widths symbolic, free to overlap other modules and to stick '
                    'out of the die; include-zero on and off',
@@ -20,7 +21,7 @@ ASSUMPTIONS = ['R model; one axis symbolic (y extents concrete)', 'separation ma
                'include-zero only when every module touches some cell (the constructor cannot represent a module with zero total area): '
                'such pre-states are discarded']
 NOT_DECIDED = ['terminals', 'modules whose own rectangles overlap (excluded by the property)', 'both axes symbolic']
-MUST_REACH = ['allocated']
+MUST_REACH = ['allocated', 'moved']
 BANDS = {'full': (0, 4), 'lower': (0, 1), 'middle': (1, 3), 'upper': (3, 4)}
 MODKINDS = ['soft0', 'soft1', 'soft2', 'hard1', 'hard2']
 
@@ -48,6 +49,12 @@ def cases(tier):
                     cs.append(dict(die=d, mods=c, zero=z, area=[1.0, 2.25, 4.0][(len(cs)) % 3], symmod=sm))
     for d in (dies[:3] if tier == 'quick' else dies[:4]):
         cs.append(dict(die=d, mods=['hard2'] if tier == 'quick' else ['soft1', 'hard2'], zero=0, symdie=True))
+    # allocate, MOVE the modules in place (the way the placement tools do: centre coordinates updated, recenter_rectangles), allocate
+    # again: the second allocation must be the allocation of the moved design (nothing remembered from before the move)
+    for d in ([dies[0], dies[1], dies[2], dies[4]] if tier == 'quick' else dies):
+        for c in [['soft0'], ['soft1', 'hard1'], ['hard2', 'soft0']]:
+            for sm in range(len(c)):
+                cs.append(dict(die=d, mods=c, zero=len(cs) % 2, area=2.25, symmod=sm, moved=True))
     return cs
 
 
@@ -77,7 +84,7 @@ def body(I, case):
             regions.append(spec + [reg[0]])
     for i, kind in enumerate(case['mods']):
         name = f'M{i}'
-        conc = case.get('symdie') or (case.get('symmod') is not None and case['symmod'] != i)
+        conc = case.get('symdie') or case.get('moved') or (case.get('symmod') is not None and case['symmod'] != i)
         cx = I.real(f'x{i}', 0, 65) if not conc else [2.0, 6.5, 9.25][i % 3]
         yb = [(0.5, 1.5), (2.0, 3.0)][i % 2]
         if kind == 'soft0':
@@ -113,6 +120,25 @@ def body(I, case):
         die.split_refinable_regions(2.0, case['die']['split'])
     refinable, fixed = die.floorplanning_rectangles()
     ref_boxes = [geo.rbox(r) for r in refinable]
+    if case.get('moved'):
+        try:
+            create_initial_allocation(die, bool(case['zero']))   # first allocation (creates the default squares, reads all geometry)
+        except ZeroDivisionError:
+            pass
+        for i, kind in enumerate(case['mods']):
+            name = f'M{i}'
+            m = net.get_module(name)
+            dx = I.real(f'dx{i}', -12, 60) if case['symmod'] == i else 0.75
+            if kind == 'soft0':
+                m.center.x += dx                       # tools/force style: the centre point is updated in place
+            elif kind.startswith('hard'):
+                m.center = Point(m.center.x + dx, m.center.y)
+                m.recenter_rectangles()                # tools/spectral, tools/glbfloor style
+            else:
+                for r in m.rectangles:
+                    r.center.x += dx
+            shapes[name] = [(b[0] + dx, b[1], b[2] + dx, b[3]) for b in shapes[name]]
+        I.reached('moved')
     try:
         al = create_initial_allocation(die, bool(case['zero']))
     except ZeroDivisionError:
